@@ -381,12 +381,34 @@ def colorize_gate(ctx):
     ctx.obligation(ok)
     if not ok:
         ctx.violation("colors/gate", ctx.where("searcher::Searcher::check_file"), "values may be colourised only under `use_colors && field.contains_colorized()`")
+    # the flag handed to the searcher (the argument of Searcher::new that is a bool) is evaluated on (colours disabled) x (standard
+    # output is a terminal): true exactly when colours are not disabled and the output is a terminal
+    import interp
     eh = ctx.anchor_hir("exec_search")
     lets = {x["pat"].get("name"): render(x["init"]) for x in walk(eh) if x["k"] == "Let" and x["pat"]["k"] == "Bind" and "init" in x}
-    ok = lets.get("use_colors") == "(!no_color && is_terminal)" and "is_terminal()" in lets.get("is_terminal", "")
+    news = [c for c in walk_exprs(eh) if c["k"] == "Call" and str(c.get("callee", "")).endswith("Searcher::new")]
+    flag_args = [a_ for c in news for a_ in c["args"] if str(a_.get("ty", "")) == "bool"]
+    ok = len(flag_args) == 1
+    why = "found %s" % lets.get("use_colors")
+    if ok:
+        try:
+            tbl = {}
+            for no_color in (False, True):
+                for tty in (False, True):
+                    def call(node, recv, args, it, env, tty=tty):
+                        if node.get("m") == "is_terminal":
+                            return (tty,)
+                        if str(node.get("callee", "")).endswith(("io::stdout", "stdio::stdout")):
+                            return (interp.Opaque("stdout"),)
+                        return None
+                    tbl[(no_color, tty)] = interp.eval_in(eh, flag_args[0], {"no_color": no_color}, call=call, prog=ctx.prog)
+            ok = all(v is ((not nc) and tty) for (nc, tty), v in tbl.items())
+            why = "on (colours disabled, terminal) it is %s" % {k: v for k, v in tbl.items()}
+        except interp.Undecided as e:
+            ok, why = False, "cannot evaluate the colour flag: %s" % e
     ctx.obligation(ok)
     if not ok:
-        ctx.violation("colors/terminal", ctx.where("exec_search"), "colours may be used only when not disabled and standard output is a terminal; found %s" % lets.get("use_colors"))
+        ctx.violation("colors/terminal", ctx.where("exec_search"), "colours may be used only when not disabled and standard output is a terminal; %s" % why)
     fh = ctx.anchor_hir("field::Field::is_colorized_field")
     import tables
     vs = tables.variant_set(ctx, "field::Field::is_colorized_field")
